@@ -45,7 +45,8 @@ def run(ctx):
             ("pass", "MC_Announce_udp.cfg", {}),
             ("asis", "MC_Announce_udp_asis.cfg", {"expect_live": True})]
     if not ctx.quick():
-        jobs += [("pass", "MC_Announce_tier.cfg", {"timeout": 2400}), ("pass", "MC_Announce_udp_mid.cfg", {"timeout": 2400})]
+        jobs += [("pass", "MC_Announce_tier.cfg", {"timeout": 2400}), ("pass", "MC_Announce_udp_mid.cfg", {"timeout": 2400}),
+                 ("asis", "MC_Announce_tier_asis.cfg", {"expect_tag": "C16.tier.next"})]
     base.mc_all(ctx, jobs)
     results = join()
     base.drop_failed(ctx, results, max_frac=0.2)
